@@ -6,6 +6,8 @@ All statements are for every number of selected cases, every outcome map and eve
 -/
 import ConfModel.Lemmas.Report
 import ConfModel.Lemmas.ReportScript
+import ConfModel.Lemmas.RunLoop
+import ConfModel.Lemmas.ClientRunner
 namespace ConfModel.Props.C04
 open ConfModel.Report ConfModel.RunVerdict
 
@@ -302,5 +304,110 @@ theorem unrepaired_witness :
     (reportUnrepaired ⟨fun _ => false, fun _ => false⟩ 3 [("a", ⟨.none, false, false, false⟩)] []).ok = true ∧
     (report ⟨fun _ => false, fun _ => false⟩ 3 [("a", ⟨.none, false, false, false⟩)] []).ok = false := by
   decide
+
+
+/-! ## Composition: the batch loop of `run()` with the producers of outcomes (C11, C10)
+
+`ConfModel.Model.RunLoop`: process fates are inputs.  Hypotheses of the theorems (all decidable):
+every batch is non-empty (`run()` skips empty ones), `names` are the test names of the cases of
+the batch, test names are distinct over the whole run (C07), no name is marked both known-failing
+and known-flaky (`run()` rejects that). -/
+
+open ConfModel.RunLoop
+
+/-- `report` looks at the merged outcome map only up to the order of its entries (Go map
+iteration): if it is the outcome map of an assignment, the verdict, the totals and the names
+printed are those of the declarative rule. -/
+theorem report_of_perm (mk : Marks) (cases : List Case) (extra : Nat) (os : Outcomes) (sb : Sideband)
+    (hperm : (merged mk os sb).Perm (finalMap cases)) :
+    let r := report mk (cases.length + extra) os sb
+    r.ok = specOk cases extra ∧
+    (⟨r.succeeded, r.failed, r.expectedFailures, r.couldNotRun⟩ : Totals) = specTotals cases extra ∧
+    r.failedNames.Perm (specFailedNames cases) ∧ r.infoNames.Perm (specInfoNames cases) := by
+  intro r
+  have hA := assignment_report mk cases extra
+  simp only [report, reportWith, processSideband_nil] at hA
+  obtain ⟨h1, h2, h3, h4⟩ := hA
+  have hc : ∀ k, count k (merged mk os sb) = count k (finalMap cases) := fun k => hperm.countP_eq _
+  have hl : (merged mk os sb).length = (finalMap cases).length := hperm.length_eq
+  have hn : ∀ p, (namesOf p (merged mk os sb)).Perm (namesOf p (finalMap cases)) :=
+    fun p => (hperm.filter _).map _
+  have hr : r = reportWith (fun failed couldNotRun => failed == 0 && couldNotRun == 0) mk
+      (cases.length + extra) os sb := rfl
+  rw [hr]
+  simp only [reportWith, hc, hl]
+  refine ⟨h1, h2, ?_, ?_⟩
+  · rw [← h3]; exact hn _
+  · rw [← h4]; exact hn _
+
+/-- **The report of a run is the rule of the property applied to what happened.**  Whatever the
+fates of the client and server processes: the verdict of `report`, the printed totals and the
+`FAILED` / `INFO` names after the batch loop are those the declarative rule gives for the
+assignment that says, for every selected case, what happened to it (`assignment`: the class of the
+one outcome its batch recorded for it — C11 —, peer feedback from the server's stderr, or
+"nothing known" when its batch was never spawned). -/
+theorem run_report_spec (mk : Marks) (w : List Client)
+    (hnamed : ∀ s ∈ allScripts w, s.names.length = s.cases.length)
+    (hd : (allNames w).Nodup)
+    (hex : ∀ n ∈ allNames w, (mk.failing n && mk.flaky n) = false)
+    (r : Report) (hr : runReport mk w = some r) :
+    r.ok = specOk (assignment mk w) 0 ∧
+    (⟨r.succeeded, r.failed, r.expectedFailures, r.couldNotRun⟩ : Totals) = specTotals (assignment mk w) 0 ∧
+    r.failedNames.Perm (specFailedNames (assignment mk w)) ∧
+    r.infoNames.Perm (specInfoNames (assignment mk w)) := by
+  have hp := merged_perm mk w hnamed hd hex
+  have hrep := report_of_perm mk (assignment mk w) 0 _ _ hp
+  rw [Nat.add_zero, assignment_length] at hrep
+  unfold runReport at hr
+  split at hr
+  · cases hr
+  · injection hr with hr; subst hr; exact hrep
+
+/-- **run_success_iff (interface layer).**  For every list of clients, every list of batches per
+client, every fate of every server process, every observation of the client runner per request
+(refused / accepted and answered / accepted and failed), every outcome of every liveness check and
+of every final wait: `Run` returns success iff every selected case received a real answer meeting
+its expectation (`specOk` of the assignment) and every client started and ended without error. -/
+theorem run_success_iff_interface (mk : Marks) (w : List Client)
+    (hne : ∀ s ∈ allScripts w, 0 < s.cases.length)
+    (hnamed : ∀ s ∈ allScripts w, s.names.length = s.cases.length)
+    (hd : (allNames w).Nodup)
+    (hex : ∀ n ∈ allNames w, (mk.failing n && mk.flaky n) = false) :
+    Run mk w = true ↔
+      specOk (assignment mk w) 0 = true ∧ ∀ c ∈ w, c.startErr = false ∧ c.waitErr = false := by
+  obtain ⟨t, ht, hok, hclean⟩ := sched_prefix w
+  have hp := merged_perm mk w hnamed hd hex
+  have hrep := (report_of_perm mk (assignment mk w) 0 _ _ hp).1
+  rw [Nat.add_zero, assignment_length] at hrep
+  have hrun : ∀ e, (sched w).2 = e → e ≠ .noResults →
+      Run mk w = ((report mk (total w) (resultsOf mk (sched w).1).os (resultsOf mk (sched w).1).sb).ok && !(e == .err)) := by
+    intro e he hne'
+    unfold Run RunWith
+    rw [he]
+    cases e <;> first | rfl | exact absurd rfl hne'
+  constructor
+  · intro h
+    cases he : (sched w).2 with
+    | noResults => simp [Run, RunWith, he] at h
+    | err => rw [hrun _ he (by decide)] at h; simp at h
+    | ok =>
+      rw [hrun _ he (by decide)] at h
+      simp only [Bool.and_eq_true] at h
+      exact ⟨by rw [← hrep]; exact h.1, (hok he).2⟩
+  · rintro ⟨hs, hc⟩
+    rcases hclean hc with he | ⟨he, hne'⟩
+    · rw [hrun _ he (by decide), hrep, hs]; rfl
+    · exfalso
+      cases t with
+      | nil => exact hne' rfl
+      | cons s t' =>
+        have hs_mem : s ∈ allScripts w := by rw [← ht]; simp
+        obtain ⟨c, hc1, hc2⟩ := missing_not_meets mk s (hne s hs_mem)
+        have hin : c ∈ assignment mk w := by
+          rw [assignment_eq mk w _ ht]
+          exact List.mem_append_right _ (List.mem_flatMap.2 ⟨s, List.mem_cons_self, hc1⟩)
+        simp only [specOk, Bool.and_eq_true, List.all_eq_true] at hs
+        rw [hs.2 c hin] at hc2
+        cases hc2
 
 end ConfModel.Props.C04
